@@ -52,7 +52,7 @@ const std::vector<Cfg>& cfgs(bool th) { if (g_cfg[th].empty()) g_cfg[th] = confi
 
 // several long-lived converters used in an interleaved way: every call must return what the same call returns on a
 // freshly constructed converter used in isolation (the conversions are const and the statement gives them no history)
-void interleaved(vf::Ctx& c, int depth) {
+void interleaved(vf::Ctx& c, int depth, int prefix) {   // prefix = first two operations (18 x 18 cases)
   const double eG = 0.0818191910428158, eC = 0.08248325676;
   auto mk = [&](int i) {
     if (i == 0) return LambertConverter(LambertConverter::SecantProjectionParameters{3 * D, 46.5 * D, 44 * D, 49 * D, 700000, 6600000}, EarthEllipsoid(6378137.0, 6378137.0 * std::sqrt(1 - eG * eG)));
@@ -68,10 +68,10 @@ void interleaved(vf::Ctx& c, int depth) {
     if (k < 3) { Eigen::Vector2d r = f.toLambert(pts[k]); want[ci * 6 + k] = {r[0], r[1]}; } else { if (ci == 2 && k != 5) { want[ci * 6 + k] = {0, 0}; continue; } if (ci != 2 && k == 5) { want[ci * 6 + k] = {0, 0}; continue; } WGS84Coordinates r = f.toWGS84(xy[k - 3]); want[ci * 6 + k] = {r.latitude, r.longitude}; }
   }
   const int NOPS = 18;
-  uint64_t total = 1; for (int i = 0; i < depth; ++i) total *= NOPS;
+  uint64_t total = 1; for (int i = 2; i < depth; ++i) total *= NOPS;
   std::vector<LambertConverter> conv = {mk(0), mk(1), mk(2)};
   for (uint64_t s = 0; s < total; ++s) {
-    std::vector<int> seq(depth); uint64_t r = s; for (int i = 0; i < depth; ++i) { seq[i] = r % NOPS; r /= NOPS; }
+    std::vector<int> seq(depth); seq[0] = prefix / NOPS; seq[1] = prefix % NOPS; uint64_t r = s; for (int i = 2; i < depth; ++i) { seq[i] = r % NOPS; r /= NOPS; }
     for (int i = 0; i < depth; ++i) {
       int ci = seq[i] / 6, k = seq[i] % 6;
       if (k >= 3 && ((ci == 2) != (k == 5))) continue;   // inverse only on points that belong to the converter's own zone
@@ -87,15 +87,15 @@ void interleaved(vf::Ctx& c, int depth) {
   }
 }
 
-uint64_t vf_ncases(const std::string& tier) { return cfgs(tier == "thorough").size() + 1; }
+uint64_t vf_ncases(const std::string& tier) { return cfgs(tier == "thorough").size() + 324; }
 
 std::string cfg_json(const Cfg& k) {
   return vf::JO().str("zone", k.name).b("tangent", k.tangent).num("e", k.e).num("lat0_deg", k.lat0 / D).num("lat1_deg", k.lat1 / D).num("lat2_deg", k.lat2 / D).num("lon0_deg", k.lon0 / D).num("k0", k.k0).num("x0", k.x0).num("y0", k.y0).done();
 }
-std::string vf_case_params(uint64_t idx, const std::string& tier) { if (idx >= cfgs(tier == "thorough").size()) return "{\"explorer\":\"interleaved converters\"}"; return cfg_json(cfgs(tier == "thorough")[idx]); }
+std::string vf_case_params(uint64_t idx, const std::string& tier) { if (idx >= cfgs(tier == "thorough").size()) return vf::JO().str("explorer", "interleaved converters").u("first_two_operations", idx - cfgs(tier == "thorough").size()).done(); return cfg_json(cfgs(tier == "thorough")[idx]); }
 
 void vf_run(uint64_t idx, const std::string& tier, vf::Ctx& c) {
-  if (idx >= cfgs(tier == "thorough").size()) { interleaved(c, tier == "thorough" ? 4 : 3); return; }
+  if (idx >= cfgs(tier == "thorough").size()) { interleaved(c, tier == "thorough" ? 6 : 3, (int)(idx - cfgs(tier == "thorough").size())); return; }
   const Cfg& k = cfgs(tier == "thorough")[idx];
   double b = k.a * std::sqrt(1 - k.e * k.e);
   EarthEllipsoid ell(k.a, b);
@@ -160,7 +160,7 @@ std::string vf_describe(const std::string& tier) {
   o.str("tangent", "phi0 15..75 (both hemispheres), k0 in {0.99, 0.99987734, 1}");
   o.str("named_zones", "Lambert-93, CC42..CC50, Lambert I, II, III, IV, II etendu");
   o.str("points", "dlat {0,+-1,+-4,+-8} deg x dlon {0,+-1,+-10,+-30} deg around the projection origin; standard parallels at dlon {0,7,-25} deg");
-  o.str("interleaving", th ? "three long-lived converters (Lambert-93/GRS80, Lambert II etendu/Clarke 1880, a southern secant cone on the sphere), every sequence of 4 calls over {toLambert x3 points, toWGS84 x3 points} x 3 converters, each result bit-equal to the same call on a fresh isolated converter" : "three long-lived converters (Lambert-93/GRS80, Lambert II etendu/Clarke 1880, a southern secant cone on the sphere), every sequence of 3 calls over {toLambert x3 points, toWGS84 x3 points} x 3 converters, each result bit-equal to the same call on a fresh isolated converter");
+  o.str("interleaving", th ? "three long-lived converters (Lambert-93/GRS80, Lambert II etendu/Clarke 1880, a southern secant cone on the sphere), every sequence of 6 calls over {toLambert x3 points, toWGS84 x3 points} x 3 converters, each result bit-equal to the same call on a fresh isolated converter" : "three long-lived converters (Lambert-93/GRS80, Lambert II etendu/Clarke 1880, a southern secant cone on the sphere), every sequence of 3 calls over {toLambert x3 points, toWGS84 x3 points} x 3 converters, each result bit-equal to the same call on a fresh isolated converter");
   o.str("oracle", "central differences (1e-5 rad) of the library forward map: |h-k|<=1e-8, meridian/parallel images orthogonal (1e-8) and positively oriented, scale 1 (k0) on the standard parallel(s) within 1e-8; origin and central meridian within 1 micrometre; inverse within 1e-11 rad; termination by watchdog");
   return o.done();
 }
